@@ -13,6 +13,10 @@ import (
 	"time"
 )
 
+// enumProp: the property the findings of this scenario are reported under (C14; C13 runs it too: a sibling link
+// that ends while an enumeration is in progress may not hand the callback a remote that cannot be called)
+var enumProp = "C14"
+
 func c14EnumDuringTeardown(rep *Report) {
 	for round := 0; round < 3; round++ {
 		rep.Evaluations++
@@ -65,7 +69,7 @@ func c14EnumOnce[T any](rep *Report, codec Codec[T], round int) {
 	}()
 	waitFor(func() bool { return len(hub.Remotes()) == 3 })
 	if len(hub.Remotes()) != 3 {
-		rep.addViolation("property", "C14:enum:setup", "three links did not come up", desc)
+		rep.addViolation("property", enumProp+":enum:setup", "three links did not come up", desc)
 		return
 	}
 	// which hub-side id belongs to which spoke
@@ -92,8 +96,12 @@ func c14EnumOnce[T any](rep *Report, codec Codec[T], round int) {
 		defer close(done)
 		hub.Reg.ForRemotes(func(id string, r Remote) error {
 			visited++
+			if r.WhoAmI == nil {
+				rep.addViolation("property", enumProp+":enum:zero-remote", fmt.Sprintf("an enumeration in progress (visit %d) was handed a ZERO remote for %s (every function field nil): calling it panics in the caller's goroutine — a sibling link's end reached a handler of another link", visited, id[:8]), desc)
+				return nil
+			}
 			if disconnected(id) {
-				rep.addViolation("property", "C14:enum:stale-remote", fmt.Sprintf("an enumeration in progress (visit %d) was handed remote %s, which had already been announced as disconnected", visited, id[:8]), desc)
+				rep.addViolation("property", enumProp+":enum:stale-remote", fmt.Sprintf("an enumeration in progress (visit %d) was handed remote %s, which had already been announced as disconnected", visited, id[:8]), desc)
 			}
 			if visited == 1 {
 				// end the two OTHER links completely and give their disconnect notifications time to arrive
@@ -119,6 +127,6 @@ func c14EnumOnce[T any](rep *Report, codec Codec[T], round int) {
 	select {
 	case <-done:
 	case <-time.After(watchdog):
-		rep.addViolation("property", "C14:enum:hang", "the enumeration did not finish", desc)
+		rep.addViolation("property", enumProp+":enum:hang", "the enumeration did not finish", desc)
 	}
 }
